@@ -191,7 +191,11 @@ def gen_pass(rng, max_frames=60, names_pool=None, long=False):
             start, stop = start + abs(stop) + 10, 10.0
     values = [[gen_word(rng) for _ in range(frames)] for _ in range(nch)]
     desc = rng.pick(['SHELL EXPRO U.K.      24 OCT 84      MANSFIELD/DODDS', 'OCCIDENTAL PETROLEUM', 'TEST WELL 7  RUN 2', ''])
-    return {'desc': desc, 'ub': rng.pick(['T  2 9 / 1 0 - 3', 'WELL 15/17-9', '']), 'channels': names,
+    # the first four bytes of the header block are not interpreted by anybody: they vary, and they take the structural constants
+    # of this and the neighbouring formats (276 = 0x114 is the length of this very block) as well as arbitrary values
+    head = rng.wpick([(8, '00020000'), (2, rng.rbytes(4).hex()), (1, '0114' + rng.rbytes(2).hex()), (1, '00000114'), (1, 'ffffffff'), (1, '00000000'),
+                      (1, '0100' + rng.rbytes(2).hex())])
+    return {'desc': desc, 'ub': rng.pick(['T  2 9 / 1 0 - 3', 'WELL 15/17-9', '']), 'channels': names, 'head': head,
             'from': ibm_encode(start), 'to': ibm_encode(stop), 'spacing': ibm_encode(sp), 'block': block, 'values': values}
 
 
